@@ -168,7 +168,7 @@ pub fn materialise(c: &Case) -> Result<Mat, String> {
     let samples = fwd
         .iter()
         .enumerate()
-        .map(|(j, s)| (format!("smp{j}"), vec![if c.orient[j % c.orient.len()] { model::revcomp(s) } else { s.clone() }]))
+        .map(|(j, s)| (format!("{}{j}", ["m", "c", "x", "a", "t", "g", "p", "e", "z", "k"][j % 10]), vec![if c.orient[j % c.orient.len()] { model::revcomp(s) } else { s.clone() }]))
         .collect();
     Ok(Mat { ancestor: anc, indels, fwd, samples, trunc })
 }
@@ -205,7 +205,14 @@ fn check(c: &Case, ctx: &Ctx) -> Outcome {
         let txt = std::fs::read_to_string(dir.join("out_indels.vcf")).map_err(|e| Outcome::Fail(format!("out_indels.vcf: {e}")))?;
         let mut matched: Vec<usize> = Vec::new();
         let mut n_rec = 0;
+        let exp_names: Vec<&str> = m.samples.iter().map(|s| s.0.as_str()).collect();
         for l in txt.lines() {
+            if l.starts_with("#CHROM") {
+                let cols: Vec<&str> = l.split('\t').skip(9).collect();
+                if cols != exp_names {
+                    return Err(Outcome::Fail(format!("sample columns of the indel VCF {:?}, samples in input order {:?}", cols, exp_names)));
+                }
+            }
             if l.starts_with('#') || l.is_empty() {
                 continue;
             }
